@@ -278,7 +278,20 @@ func runC14(r *ev.Run) {
 			}
 			r.Count("invariant:code-checks", 1)
 		}
+		var held *heldSearch
 		probe := func() {
+			if held == nil || rng.IntN(8) == 0 {
+				ho := s.genProbeOpts(rng)
+				held = newHeldSearch(func() comet.VectorSearch { return s.search(ho) })
+				hq := vg.query()
+				held.step("WithQuery", func(x comet.VectorSearch) comet.VectorSearch { return x.WithQuery(cloneF32(hq)) })
+			} else {
+				heldSearchStep(rng, held, vg.query(), m.liveIDs(), len(m.live))
+			}
+			if !held.compare(rep, kind) {
+				held = nil
+			}
+			r.Count("probes:held-search-object", 1)
 			ents := snapshot()
 			for qi := 0; qi < 1+rng.IntN(2); qi++ {
 				q := vg.query()
